@@ -1556,7 +1556,9 @@ func withErrorsGet(base []shardScript, positions []int) [][]shardScript {
 func indexGetInputs() []cInput {
 	// secondary keys in slash order: w < x < w/z; equal secondary keys fall back to the primary key
 	cand := [][]getAns{
-		{{}, {key: "b", sk: "x"}, {key: "a/b", sk: "w/z"}},
+		// the last two records of shard 0 have the queried key ("q") as their *primary* key: an answer whose
+		// key equals the query is no exact match when the query is a secondary key
+		{{}, {key: "b", sk: "x"}, {key: "a/b", sk: "w/z"}, {key: "q", sk: "w"}, {key: "q", sk: "w/z"}},
 		{{}, {key: "a", sk: "x"}, {key: "c", sk: "w"}},
 	}
 	var out []cInput
